@@ -170,6 +170,12 @@ func (ex *Exec) registerStubs() {
 			ex.deadlock(st, ex.cur, "WaitGroup.Wait blocks forever: the goroutine it waits for has finished without Done, or never ran")
 			return nil
 		}
+		for ch := range st.assumedDone {
+			if !st.obj(ch).val.(*ChanData).closed {
+				ex.deadlock(st, ex.cur, "WaitGroup.Wait blocks: the producer is parked in a select waiting for a cancellation that has not happened by the time the consumer waits for it")
+				return nil
+			}
+		}
 		return ret1(st, nil)
 	}
 	fileT := func() types.Type {
